@@ -162,6 +162,17 @@ func c21cLoadReal(text string) (c21cState, bool) {
 			return c21cState{}, false
 		}
 	}
+	// a text that leaves its transaction open has not loaded anything
+	conn, err := d.rwDB.Conn(context.Background())
+	if err != nil {
+		panic(err)
+	}
+	open := false
+	conn.Raw(func(dc any) error { open = !dc.(*sqlite3.SQLiteConn).AutoCommit(); return nil })
+	conn.Close()
+	if open {
+		return c21cState{}, false
+	}
 	return c21cContentOfFile(d.path), true
 }
 
